@@ -699,6 +699,14 @@ class SinkUpdate(NodeUpdate):
             if k.startswith('builtin_inspect.') or k in ('builtin_gen.is_future', 'builtin_asyncio.isfuture', 'builtin_asyncio.iscoroutine', 'isinstance'):
                 d[k] = v
 
+        def wrap_in_future(I, args, kwargs, fr):
+            # gen.convert_yielded(x) / asyncio.ensure_future(x): a future that awaits x (x has an awaiter from now on)
+            g = I.st.ghost
+            g['_given_an_awaiter'] = g.get('_given_an_awaiter', []) + [args[0]]
+            return VAw(z3.Const(sym.fresh_name('future_around'), sym.Aw))
+        d['builtin_gen.convert_yielded'] = wrap_in_future
+        d['builtin_asyncio.ensure_future'] = wrap_in_future
+
         def isawaitable(I, args, kwargs, fr):
             v = args[0]
             return VBool(f_isawaitable(I.as_elem(v)))
@@ -718,6 +726,10 @@ class SinkUpdate(NodeUpdate):
             g['wrapped'] = VTuple([args[0], args[1]])
             return VElem(sym.user_func('release_when_done', 1)(I.as_elem(args[0])))
         d['sink._release_when_done'] = release_when_done
+
+        def add_done_callback(I, recv, args, kwargs):
+            return NONE              # runs in a later segment (when the future completes), nothing happens now
+        d['Aw.add_done_callback'] = add_done_callback
         return d
 
     def init_ghost(self, st):
@@ -731,7 +743,17 @@ class SinkUpdate(NodeUpdate):
                 return z3.BoolVal(False)
             return evs[0]['args'][0] == self.pre_args['x'].t
         res = 'self.func(x, *self.args, **self.kwargs)'
-        return [
+        def one_awaiter(self_, I, o, fr):
+            # what update() returns is awaited by the emitter: an awaitable of the consumer that this call has also wrapped into
+            # a future of its own (convert_yielded / ensure_future) would be awaited twice; a coroutine object bears one await
+            given = o.state.ghost.get('_given_an_awaiter', [])
+            res = o.value
+            items = res.items if isinstance(res, sym.VTuple) else [res]
+            bad = [z3.BoolVal(True) for r in items for gv in given if r is gv]
+            return z3.BoolVal(not bad)
+        extra = [Clause('C02.an_awaitable_of_the_consumer_gets_exactly_one_awaiter', ['C02', 'C03'], when='return', fn=one_awaiter,
+                        note='returning the raw awaitable AND wrapping it into a future awaits a coroutine object twice: RuntimeError in the second awaiter')]
+        return extra + [
             Clause('C01.func_called_exactly_once_with_the_element', ['C01', 'C02'], fn=called_once, when='return',
                    kind='called_once'),
             Clause('C03.returns_the_consumers_awaitable', ['C03', 'C02'], when='return',
